@@ -224,7 +224,7 @@ func (c *Ctx) akaPaddingRule(r *Report, prefix string) {
 					continue
 				}
 				cond, ok := iff.Cond.(*ssa.BinOp)
-				if !ok || cond.Op != token.LSS {
+				if !ok || (cond.Op != token.LSS && cond.Op != token.GTR) {
 					continue
 				}
 				ph, ok := cond.X.(*ssa.Phi)
@@ -232,7 +232,30 @@ func (c *Ctx) akaPaddingRule(r *Report, prefix string) {
 					continue
 				}
 				zeroStart, stepOne := false, false
+				var countLF *LF
+				if cond.Op == token.GTR {
+					// counting down: for ; n > 0; n-- with n = the number of fill octets
+					if k, isK := cond.Y.(*ssa.Const); !isK || k.Value == nil || k.Value.ExactString() != "0" {
+						continue
+					}
+					for i, e := range ph.Edges {
+						if li.body[li.header.Preds[i]] {
+							if bo, ok := e.(*ssa.BinOp); ok && bo.Op == token.SUB && bo.X == ssa.Value(ph) {
+								if k, ok := bo.Y.(*ssa.Const); ok && k.Value != nil && k.Value.ExactString() == "1" {
+									stepOne = true
+								}
+							}
+							continue
+						}
+						l0 := f.LFOf(e)
+						countLF = &l0
+						zeroStart = true
+					}
+				}
 				for _, e := range ph.Edges {
+					if cond.Op == token.GTR {
+						break
+					}
 					if k, ok := e.(*ssa.Const); ok {
 						if kv, _ := constInt64(k.Value); kv == 0 {
 							zeroStart = true
@@ -274,6 +297,9 @@ func (c *Ctx) akaPaddingRule(r *Report, prefix string) {
 					continue
 				}
 				l := f.LFOf(cond.Y)
+				if countLF != nil {
+					l = *countLF
+				}
 				hasLen4, hasVal := false, false
 				for a, k := range l.T {
 					d := f.atomDef(a)
@@ -291,8 +317,115 @@ func (c *Ctx) akaPaddingRule(r *Report, prefix string) {
 				}
 			}
 		}
+		// or: a zeroed buffer of the final size filled at a cursor that moves by 4*length per attribute; what the
+		// writes (laid back to back from the cursor on, see the token rule) leave untouched up to there is the fill
+		if !okP {
+			var buf *ssa.MakeSlice
+			for _, b := range ma.Blocks {
+				if ret, ok := b.Instrs[len(b.Instrs)-1].(*ssa.Return); ok && len(ret.Results) >= 1 {
+					if mk, ok := ret.Results[0].(*ssa.MakeSlice); ok && isByteSlice(mk.Type()) && mk.Len == mk.Cap {
+						buf = mk
+					}
+				}
+			}
+			if buf != nil {
+				for _, li := range naturalLoops(ma) {
+					for _, ins := range li.header.Instrs {
+						ph, ok := ins.(*ssa.Phi)
+						if !ok {
+							break
+						}
+						if !isIntType(ph.Type()) {
+							continue
+						}
+						// the cursor indexes the buffer
+						used := false
+						for _, b := range sortedBlocks(li.body) {
+							for _, i2 := range b.Instrs {
+								var pos ssa.Value
+								switch x := i2.(type) {
+								case *ssa.IndexAddr:
+									if x.X == ssa.Value(buf) {
+										pos = x.Index
+									}
+								case *ssa.Slice:
+									if x.X == ssa.Value(buf) {
+										pos = x.Low
+									}
+								}
+								if pos != nil {
+									if _, has := f.unwrapOffset(f.LFOf(pos)).T[f.phiAtom(ph)]; has {
+										used = true
+									}
+								}
+							}
+						}
+						if !used {
+							continue
+						}
+						all := true
+						n := 0
+						for i, e := range ph.Edges {
+							if !li.body[li.header.Preds[i]] {
+								continue
+							}
+							n++
+							step := f.unwrapOffset(f.LFOf(e)).add(f.LFOf(ph), -1)
+							okStep := len(step.T) == 1 && step.C == 0
+							for a, k := range step.T {
+								d := f.atomDef(a)
+								_, fld, isF := fieldLoad(d)
+								if k != 4 || d == nil || !isF || fld != "length" {
+									okStep = false
+								}
+							}
+							if !okStep {
+								all = false
+							}
+						}
+						if all && n > 0 {
+							okP = true
+						}
+					}
+				}
+			}
+		}
 		// negative padding is an error
 		negErr := false
+		// in whatever spelling: some test whose passing side says 4*length - ... - len(value) >= 0 and whose other
+		// side only fails
+		for _, b := range ma.Blocks {
+			iff, ok := b.Instrs[len(b.Instrs)-1].(*ssa.If)
+			if !ok || b.Succs[0] == b.Succs[1] {
+				continue
+			}
+			for i := 0; i < 2; i++ {
+				if !c.onlyErrorExit(b.Succs[1-i]) {
+					continue
+				}
+				var fs []Fact
+				f.condFacts(iff.Cond, i == 0, &fs)
+				for _, ft := range fs {
+					if ft.NE {
+						continue
+					}
+					hasLen4, hasVal := false, false
+					for a, k := range ft.L.T {
+						if d := f.atomDef(a); k == 4 && d != nil {
+							if _, fld, ok := fieldLoad(d); ok && fld == "length" {
+								hasLen4 = true
+							}
+						}
+						if k == -1 && f.fieldOfLenAtom(a) != "" && strings.HasSuffix(f.fieldOfLenAtom(a), ".value") {
+							hasVal = true
+						}
+					}
+					if hasLen4 && hasVal {
+						negErr = true
+					}
+				}
+			}
+		}
 		for _, b := range ma.Blocks {
 			if iff, ok := b.Instrs[len(b.Instrs)-1].(*ssa.If); ok {
 				if cond, ok := iff.Cond.(*ssa.BinOp); ok && cond.Op == token.LSS {
@@ -390,6 +523,30 @@ func (c *Ctx) eapSuccessFailureRule(r *Report, prefix string) {
 		id, isW := x.wireLeafOf(lenSide)
 		if !isW {
 			id, isW = x.wireGroupOf(lenSide)
+		}
+		if !isW {
+			// len(b) itself, where the dominating tests have made it equal to the length slot
+			if lc, isCall := lenSide.(*ssa.Call); isCall {
+				if bi, isB := lc.Call.Value.(*ssa.Builtin); isB && bi.Name() == "len" && paramIndex(um, lc.Call.Args[0]) == 1 {
+					for _, bb := range um.Blocks {
+						for _, ins := range bb.Instrs {
+							v, isV := ins.(ssa.Value)
+							if !isV || !dominatesInstr(ins, iff) {
+								continue
+							}
+							id2, ok2 := x.wireLeafOf(v)
+							if !ok2 {
+								id2, ok2 = x.wireGroupOf(v)
+							}
+							if ok2 && x.leaves[id2].Off.isConst() && x.leaves[id2].Off.C == 2 && x.leaves[id2].Octets == 2 && paramIndex(um, x.leaves[id2].Root) == 1 {
+								if f.EqualAt(f.SliceLen(lc.Call.Args[0]), f.LFOf(v), b) {
+									id, isW = id2, true
+								}
+							}
+						}
+					}
+				}
+			}
 		}
 		if !isW || !x.leaves[id].Off.isConst() || x.leaves[id].Off.C != 2 || x.leaves[id].Octets != 2 || paramIndex(um, x.leaves[id].Root) != 1 {
 			continue
